@@ -291,6 +291,7 @@ REFACTOR_PROPS = {
     "rf-short-length-is-an-error": ("C03", "C07", "C09", "C10"),
     "rf-tools-return-1": ("C07", "C10"),
     "rf-pds-tags-must-be-digits": ("C06", "C07", "C08", "C10"),
+    "rf-memoised-bitmap-list": ("C06", "C07", "C08", "C10"),
 }
 refactor("rf-writer-single-write-call", MC,
          "        self.out_file.write(record_length_raw)\n        # add data to output\n        self.out_file.write(record)",
@@ -328,3 +329,7 @@ refactor("rf-pds-tags-must-be-digits", ISO,
          "        # get the pds length\n        try:",
          "        if not pds_field_tag.isdigit():\n            raise Iso8583DataError(f'Invalid PDS tag {pds_field_tag!r}')\n        # get the pds length\n        try:",
          "PDS tags that are not digits are refused (don't-care content)")
+refactor("rf-memoised-bitmap-list", ISO,
+         "def _get_bitmap_list(binary_bitmap):\n",
+         "import functools\n\n\n@functools.lru_cache(maxsize=256)\ndef _get_bitmap_list(binary_bitmap):\n",
+         "a pure helper memoised with lru_cache: warm runs execute fewer lines than cold ones, results are identical")
